@@ -37,6 +37,8 @@ def cases(draw, max_steps=16):
         left -= k
     scn["forcing"]["partition"] = part
     scn["ibm"]["deactivate"] = []  # 'active' is not part of the output, hence not restartable state
+    # state variable stored packed in the restart file (lossless: age counts whole steps)
+    scn["output"]["pack_age"] = draw(st.sampled_from([None, None, [0.25, -3.0], [0.5, 0.0]]))
     for r in scn["release"]["rows"]:
         r["step"] = min(r["step"], scn["time"]["nsteps"] - 1)
     scn["release"]["rows"].sort(key=lambda r: (r["step"], r["tag"]))
@@ -102,6 +104,8 @@ def oracle(scn) -> core.CaseResult:
     res.cls("duration_multiple" if nsteps % period == 0 else "duration_residue")
     res.cls("continuous" if scn["release"]["continuous"] else "discrete")
     res.cls(scn["tracker"]["advection"])
+    if scn["output"].get("pack_age"):
+        res.cls("packed_state_variable_in_restart_file")
     with e2e.workdir() as d0:
         r0, m0 = sim.run(d0, scn, record_output=True)
         if not res.check(r0["status"] == "ok", "base_run_fails", f"{r0['exc']}\n{(r0['tb'] or '')[-500:]}"):
